@@ -22,8 +22,9 @@ pub struct PaddingFactory {
     md5: String,
 }
 
-/// Global padding factory
-static DEFAULT_FACTORY: std::sync::OnceLock<Arc<PaddingFactory>> = std::sync::OnceLock::new();
+/// Global padding factory (replaceable: the server may push a new scheme at any time)
+static DEFAULT_FACTORY: std::sync::OnceLock<std::sync::RwLock<Arc<PaddingFactory>>> =
+    std::sync::OnceLock::new();
 
 impl PaddingFactory {
     /// Create a new PaddingFactory from raw scheme bytes
@@ -53,22 +54,24 @@ impl PaddingFactory {
     /// with creating a new factory. This returns a shared singleton instance.
     #[allow(clippy::should_implement_trait)]
     pub fn default() -> Arc<Self> {
-        DEFAULT_FACTORY
-            .get_or_init(|| {
-                Arc::new(
-                    Self::new(DEFAULT_PADDING_SCHEME.as_bytes())
-                        .expect("default padding scheme should be valid"),
-                )
-            })
-            .clone()
+        Self::default_cell().read().unwrap().clone()
+    }
+
+    /// The process-wide default, initialised with the built-in scheme on first use
+    fn default_cell() -> &'static std::sync::RwLock<Arc<PaddingFactory>> {
+        DEFAULT_FACTORY.get_or_init(|| {
+            std::sync::RwLock::new(Arc::new(
+                Self::new(DEFAULT_PADDING_SCHEME.as_bytes())
+                    .expect("default padding scheme should be valid"),
+            ))
+        })
     }
 
     /// Update the default padding factory
     pub fn update_default(raw_scheme: &[u8]) -> Result<(), String> {
         let factory = Arc::new(Self::new(raw_scheme)?);
-        DEFAULT_FACTORY
-            .set(factory)
-            .map_err(|_| "failed to update default factory".to_string())
+        *Self::default_cell().write().unwrap() = factory;
+        Ok(())
     }
 
     /// Get the stop value
